@@ -7,6 +7,7 @@ import ZkVerif.Model.Schnorr
 import ZkVerif.Model.Arith
 import ZkVerif.Model.Transcript
 import ZkVerif.Model.Merchant
+import ZkVerif.Model.Abacus
 namespace ZkVerif.Ops
 open ZkVerif ZkVerif.Proto
 
@@ -127,6 +128,23 @@ def mkPayParams (pk : List String) (rp : List String) (rev : List String) : Opti
       mkRp (← parseList sigs) (← parseFq rg1) (← parseFq ry1) (← parseFq rg2) (← parseFq rx2) (← parseFq ry2),
       ped (← parseFq h) [← parseFq g]⟩
   | _, _, _ => none
+
+/-- little-endian 32-byte encoding of a scalar (`Scalar::to_bytes`) -/
+def encLE : Nat → Nat → List UInt8
+  | 0, _ => []
+  | k + 1, n => UInt8.ofNat (n % 256) :: encLE k (n / 256)
+
+def decLE : List UInt8 → Nat
+  | [] => 0
+  | b :: bs => b.toNat + 256 * decLE bs
+
+def encFq (x : Fq) : List UInt8 := encLE 32 x.v
+
+/-- `Scalar::from_bytes`: canonical decoding, `none` for values `≥ q` or a wrong length -/
+def decFq (bs : List UInt8) : Option Fq :=
+  if bs.length = 32 ∧ decLE bs < q then some ⟨decLE bs⟩ else none
+
+def tRevPair (p : RevPair Fq) : String := join [tV "ok", tS p.lock, tS p.secret, tN p.index]
 
 def tErr : Err → String
   | .amountTooLarge v => join [tV "amount-too-large", tN v]
@@ -265,6 +283,40 @@ def dispatch (args : List String) : Option String :=
           (i64OfU64 (← parseHex cbv)) (i64OfU64 (← parseHex mbv)) d with
       | none => pure (tV "none")
       | some b => pure (join [tV "ok", tL (flatOfPay (b.respond (← parseFq c)))])
+  -- nonces, revocation pairs, parameter generation (C05, C18, C19)
+  | ["nonce-new", close, stream] => do
+      match nonceNew (← parseFq close) (← parseStream stream) with
+      | some (n, rest) => pure (join [tV "ok", tS n, tN rest.length])
+      | none => pure (tV "none")
+  | ["nonce-ok", close, n] => do pure (tB (nonceOk (← parseFq close) (← parseFq n)))
+  | ["revpair-decode", digest, lock, secret, index] => do
+      let d ← parseBytes digest
+      match revPairDecode (fun _ => d) decFq encFq (← parseFq lock) (← parseFq secret) (← parseHex index) with
+      | .ok p => pure (tRevPair p)
+      | .error .invalidSecret => pure (tV "invalid-secret")
+      | .error .mismatchedPair => pure (tV "mismatched-pair")
+  | ["revpair-new", digests, stream] => do
+      -- digests: the SHA3 digests for index 0, 1, … (comma separated), supplied by the harness
+      let ds ← (digests.splitOn ",").mapM parseBytes
+      let Hb : List UInt8 → List UInt8 := fun bs => ds.getD (bs.getLastD 0).toNat []
+      match revPairNew Hb decFq encFq (← parseStream stream) with
+      | some (p, rest) => pure (join [tRevPair p, tN rest.length])
+      | none => pure (tV "none")
+  | ["ped-gen1", n, stream] => do
+      match PedParams.gen1 (← parseHex n) (← parseStream stream) with
+      | some (pp, rest) => pure (join [tV "ok", tS pp.h, tL pp.gs, tN rest.length])
+      | none => pure (tV "none")
+  | ["ped-gen2", n, stream] => do
+      match PedParams.gen2 (← parseHex n) (← parseStream stream) with
+      | some (pp, rest) => pure (join [tV "ok", tS pp.h, tL pp.gs, tN rest.length])
+      | none => pure (tV "none")
+  | ["channel-id-preimage", mr, cr, pk, ma, ca] => do
+      pure (tX (channelIdPreimage (← parseBytes mr) (← parseBytes cr) (← parseBytes pk) (← parseBytes ma) (← parseBytes ca)))
+  | ["complete-payment", g1, x1, h, g, rlCom, state, lock, bf, u] => do
+      let m : MerchantCfg Fq Fq Fq := ⟨⟨⟨0, [], ← parseFq x1⟩, mkPk (← parseFq g1) [] 0 0 []⟩, ped (← parseFq h) [← parseFq g], ⟨[], mkPk 0 [] 0 0 []⟩⟩
+      match m.completePayment ⟨← parseFq rlCom, ← parseFq state⟩ (← parseFq lock) (← parseFq bf) (← parseFq u) with
+      | .ok σ => pure (join [tV "ok", tSig σ])
+      | .error _ => pure (tV "error")
   | ["pk-validate", g1, y1s, g2, x2, y2s] => do
       let pk := mkPk (← parseFq g1) (← parseList y1s) (← parseFq g2) (← parseFq x2) (← parseList y2s)
       pure (tB (decide pk.Valid))
